@@ -111,7 +111,34 @@ func c19Outage(w *W) {
 			return
 		}
 	} else {
-		ap = &log.RollingFileAppender{AppenderBase: log.AppenderBase{Name: "roll"}, Layout: &log.TextLayout{}, FileDir: dir, FileName: fname, Rotation: log.TimeRotation{Interval: interval}, MaxAge: 24}
+		// the same target written in three legal spellings of (fileDir, fileName)
+		fd, fn := dir, fname
+		switch w.Arg("spell", "") {
+		case "emptydir":
+			fd, fn = "", filepath.Join(dir, fname)
+		case "split":
+			fd, fn = filepath.Dir(dir), filepath.Join(filepath.Base(dir), fname)
+		}
+		cs["spelling"] = map[string]string{"fileDir": fd, "fileName": fn}
+		ap = &log.RollingFileAppender{AppenderBase: log.AppenderBase{Name: "roll"}, Layout: &log.TextLayout{}, FileDir: fd, FileName: fn, Rotation: log.TimeRotation{Interval: interval}, MaxAge: 24}
+		if W >= 2 {
+			// several writers reach the interval check of the same boundary together (bounded: 3 ms)
+			var arrive atomic.Int32
+			var lastB atomic.Int64
+			log.VerifPointFn = func(name string) {
+				if name != "roll.rotate.checked" {
+					return
+				}
+				if b := time.Now().Unix(); lastB.Swap(b) != b {
+					arrive.Store(0)
+				}
+				arrive.Add(1)
+				for t0 := time.Now(); arrive.Load() < int32(W) && time.Since(t0) < 3*time.Millisecond; {
+					time.Sleep(50 * time.Microsecond)
+				}
+			}
+			defer func() { log.VerifPointFn = nil }()
+		}
 		if err := ap.Start(); err != nil {
 			w.Violate("C19:start-failed", err.Error(), cs)
 			return
@@ -318,6 +345,39 @@ func c19Outage(w *W) {
 		}
 		if bad {
 			break
+		}
+	}
+	// no blocked log call, judged by relative progress instead of a deadline: if, while ONE call of a writer was in progress, another
+	// writer of the same process started and completed at least 300 calls (each followed by a pause of 0.5-2.3 ms) and an interval
+	// boundary passed, the call was not merely slow or descheduled - it was waiting inside the library
+	if !bad && !async && W >= 2 {
+		byW := map[int][]c13rec{}
+		for _, rc := range recs {
+			byW[rc.writer] = append(byW[rc.writer], rc)
+		}
+		for _, rc := range recs {
+			if rc.end.Sub(rc.start) < 100*time.Millisecond || rc.start.Truncate(interval).Equal(rc.end.Truncate(interval)) {
+				continue
+			}
+			for g, list := range byW {
+				if g == rc.writer {
+					continue
+				}
+				n := 0
+				for _, o := range list {
+					if o.start.After(rc.start) && o.end.Before(rc.end) {
+						n++
+					}
+				}
+				if n >= 300 {
+					bad = true
+					w.Violate("C19:log-call-blocked:relative-progress", fmt.Sprintf("[%s] the call for %s by writer %d lasted from %s to %s (across an interval boundary); meanwhile writer %d started and completed %d calls - the call was waiting inside the library", pl.Name, rc.id, rc.writer, rc.start.Format("15:04:05.000"), rc.end.Format("05.000"), g, n), cs)
+					break
+				}
+			}
+			if bad {
+				break
+			}
 		}
 	}
 	// creation must be attempted again: every boundary that lies outside all outages (with 30 ms
@@ -653,7 +713,7 @@ func c19Worker(w *W) {
 func init() {
 	register(&Prop{
 		ID: "C19", Level: "fault_enumeration", MinDistinct: 10, Worker: c19Worker,
-		Rule: "faults: (a) the log directory of a running rolling appender (1 s interval) is renamed away and back - or replaced by a regular file - at 12 enumerated placements relative to real boundaries, plus 3 placements in which the process runs out of descriptors instead (EMFILE on create), (covering one, two or three boundaries, starting right after a successful rotation, restored 40 ms before / after a boundary, two separate outages, back-to-back outages, outage at the first boundary, outage inside one interval only; thorough adds 12 offset sweeps) x {1,2,4} writers issuing self-describing records with call stamps; " +
+		Rule: "faults: (a) the log directory of a running rolling appender (1 s interval) is renamed away and back - or replaced by a regular file - at 12 enumerated placements relative to real boundaries, plus 3 placements in which the process runs out of descriptors instead (EMFILE on create), (covering one, two or three boundaries, starting right after a successful rotation, restored 40 ms before / after a boundary, two separate outages, back-to-back outages, outage at the first boundary, outage inside one interval only; thorough adds 12 offset sweeps) x {1,2,4} writers issuing self-describing records with call stamps, the target written in three spellings of (fileDir, fileName) - plain, empty fileDir with the whole path in fileName, path split in the middle -, several writers held together (3 ms) at the interval check of each boundary; a call during which another writer completes 300 calls and a boundary passes counts as blocked; " +
 			"oracle: no panic, every record present whole exactly once after the restore, every boundary lying outside all outages has a file created in its interval (creation retried), a sequential writer's post-boundary writes are not in an older file. (b) 14 sink-failure scenarios (one of them: the retention scan runs while the directory entries it lists are being removed): File/RollingFile appenders never started, after Stop, on /dev/full, with a missing directory at Start and at rotation, directory removed while open; console stream replaced by an erroring writer, a short writer, a closed file, a read-only file - Append and Write must return without panic or block. " +
 			"Non-trivial/distinct = distinct (placement, writers) runs + sink scenarios that held.",
 		Assumptions: []string{"the outage is produced by rename(2), so descriptors already open stay valid (that is what 'keeps writing to the file it already has' relies on)", "boundaries closer than 30 ms to an outage edge are not judged for retry"},
@@ -668,6 +728,7 @@ func init() {
 				for _, wr := range ws {
 					s := d.NewSpec("outage", fmt.Sprintf("out-%s-w%d", pl.Name, wr), len(specs), 256)
 					s.Args["placement"], s.Args["writers"] = pl.Name, fmt.Sprint(wr)
+					s.Args["spell"] = []string{"", "emptydir", "split", ""}[(i+wr)%4]
 					s.TimeoutS = 120
 					specs = append(specs, s)
 				}
